@@ -202,6 +202,31 @@ func c04TablePrograms() []c4prog {
 		return []ts.Stmt{mk(1), mk(2), mk(7),
 			ts.Switch{Cases: []ts.Case{{E: b.tb(bl(false)), Body: []ts.Stmt{pr(sl("c0"))}}, {E: b.tb(bl(true)), Body: []ts.Stmt{pr(sl("c1"))}}, {E: b.tb(bl(true)), Body: []ts.Stmt{pr(sl("c2"))}}}}}, nil
 	})
+	// builtins applied directly to calls, in every kind of statement position (printed value, operand, definition, assignment,
+	// slice element, argument, returned value, case expression, copy source): the call runs once, where the builtin stands
+	add("builtins-over-calls", func(b *c4b) ([]ts.Stmt, []ts.Stmt) {
+		mk := ts.FuncDef{Name: "mk3", Rets: []ts.Type{ts.TIntS}, Body: []ts.Stmt{pr(sl("mk3")), ts.Return{Vals: []ts.Expr{ts.SliceLit{Elem: ts.TInt, Elems: []ts.Expr{il(4), il(5), il(6)}}}}}}
+		mkc := func() ts.Expr { return ts.Call{Name: "mk3", Rets: []ts.Type{ts.TIntS}} }
+		lenS := func(v string) ts.Expr { return ts.Len{X: b.tstr(sl(v))} }
+		take := ts.FuncDef{Name: "take", Params: []ts.Param{{Name: "a", Ty: ts.TInt}, {Name: "b", Ty: ts.TString}, {Name: "c", Ty: ts.TBool}}, Rets: []ts.Type{ts.TInt},
+			Body: []ts.Stmt{pr(sl("take"), iv("a"), ts.VarRef{Name: "b", Ty: ts.TString}, ts.VarRef{Name: "c", Ty: ts.TBool}), ts.Return{Vals: []ts.Expr{iv("a")}}}}
+		give := ts.FuncDef{Name: "give", Rets: []ts.Type{ts.TInt, ts.TString}, Body: []ts.Stmt{ts.Return{Vals: []ts.Expr{ts.Len{X: mkc()}, ts.Itoa{X: b.ti(il(9))}}}}}
+		return []ts.Stmt{
+			pr(ts.Len{X: mkc()}, ts.Itoa{X: b.ti(il(7))}, lenS("hello")),
+			short("bx", ts.TInt, ts.Bin{Op: "+", Ty: ts.TInt, L: ts.Len{X: mkc()}, R: lenS("ab")}),
+			ts.Assign{Names: []string{"bx"}, Vals: []ts.Expr{ts.Bin{Op: "*", Ty: ts.TInt, L: lenS("abc"), R: ts.Len{X: mkc()}}}},
+			ts.OpAssign{Name: "bx", Ty: ts.TInt, Op: "+", Val: ts.Len{X: mkc()}},
+			short("bs", ts.TIntS, ts.SliceLit{Elem: ts.TInt, Elems: []ts.Expr{ts.Len{X: mkc()}, b.ti(il(2)), lenS("xy")}}),
+			pr(iv("bx"), ts.Len{X: ts.VarRef{Name: "bs", Ty: ts.TIntS}}),
+			pr(ts.Call{Name: "take", Args: []ts.Expr{ts.Len{X: mkc()}, ts.Itoa{X: b.ti(il(3))}, ts.Cmp{Op: "==", L: lenS("q"), R: il(1)}}, Rets: []ts.Type{ts.TInt}}),
+			ts.VarDecl{Names: []string{"g1", "g2"}, Ty: ts.TInt, Tys: []ts.Type{ts.TInt, ts.TString}, Vals: []ts.Expr{ts.Call{Name: "give", Rets: []ts.Type{ts.TInt, ts.TString}}}, Form: ts.DeclShort},
+			pr(iv("g1"), ts.VarRef{Name: "g2", Ty: ts.TString}),
+			ts.Switch{Tag: iv("g1"), Cases: []ts.Case{{E: lenS("ab"), Body: []ts.Stmt{pr(sl("two"))}}, {E: ts.Len{X: mkc()}, Body: []ts.Stmt{pr(sl("three"))}}, {Default: true, Body: []ts.Stmt{pr(sl("other"))}}}},
+			ts.VarDecl{Names: []string{"bd"}, Ty: ts.TIntS, Tys: []ts.Type{ts.TIntS}, Form: ts.DeclVarType},
+			short("bn", ts.TInt, ts.Copy{Dst: ts.VarRef{Name: "bd", Ty: ts.TIntS}, Src: mkc()}),
+			pr(iv("bn"), ts.Len{X: ts.VarRef{Name: "bd", Ty: ts.TIntS}}),
+		}, []ts.Stmt{mk, take, give}
+	})
 	add("copy-range-panic", func(b *c4b) ([]ts.Stmt, []ts.Stmt) {
 		mk := ts.FuncDef{Name: "mkslice", Params: []ts.Param{{Name: "n", Ty: ts.TInt}}, Rets: []ts.Type{ts.TIntS}, Body: []ts.Stmt{pr(sl("mk"), iv("n")), ts.Return{Vals: []ts.Expr{ts.SliceLit{Elem: ts.TInt, Elems: []ts.Expr{iv("n"), iv("n")}}}}}}
 		return []ts.Stmt{ts.VarDecl{Names: []string{"dst"}, Ty: ts.TIntS, Tys: []ts.Type{ts.TIntS}, Form: ts.DeclVarType},
